@@ -7,6 +7,7 @@ import (
 	"context"
 	"encoding/json"
 	"fmt"
+	"math/rand"
 	"os"
 	"reflect"
 	"sort"
@@ -155,7 +156,7 @@ func replay(c cfg, b beh) (int, string, string) {
 			return i, "infra", "unknown action " + stp.Act
 		}
 		if err != nil {
-			return i, "not enabled " + stp.Act, fmt.Sprintf("step %d %s%v: the specification takes this step, the real code cannot: %v", i, stp.Act, stp.Args, err)
+			return i, "shape not enabled " + stp.Act, fmt.Sprintf("step %d %s%v: the specification takes this step, the real code cannot: %v", i, stp.Act, stp.Args, err)
 		}
 		if len(s.Errors) > 0 {
 			return i, "scheduler " + stp.Act, fmt.Sprintf("step %d %s%v: %v", i, stp.Act, stp.Args, s.Errors)
@@ -204,7 +205,7 @@ func replay(c cfg, b beh) (int, string, string) {
 			diff = fmt.Sprintf("inside revoke %v, spec %v", in, win)
 		}
 		if diff != "" {
-			return i, "state " + stp.Act, fmt.Sprintf("after step %d %s%v the real gate differs from the specification: %s", i, stp.Act, stp.Args, diff)
+			return i, "shape state " + stp.Act, fmt.Sprintf("after step %d %s%v the real gate differs from the specification: %s", i, stp.Act, stp.Args, diff)
 		}
 	}
 	return -1, "", ""
@@ -231,4 +232,168 @@ func TestReplay(t *testing.T) {
 		}
 	}
 	raw.Emit(map[string]any{"kind": "stat", "behaviours": len(behs), "steps": steps, "violations": nviol})
+}
+
+// TestExplore runs pollers, rebalancers and the application under pseudo-random schedules that are NOT steered by the
+// specification and checks PollGate.tla's properties on what is observable, whatever the shape of the code inside the
+// gate's methods: a revoke section never overlaps a poll that was admitted and not yet released (or, having returned
+// records, not yet allowed), and nobody waits forever (every poller and rebalancer finishes its rounds while the
+// application keeps allowing rebalances once no poll is in progress).
+func TestExplore(t *testing.T) {
+	var c cfg
+	bs, err := os.ReadFile(os.Getenv("VERIF_CFG"))
+	if err != nil || json.Unmarshal(bs, &c) != nil {
+		t.Fatal("cfg", err)
+	}
+	n := raw.EnvInt("VERIF_N", 5000)
+	rng := rand.New(rand.NewSource(int64(raw.EnvInt("VERIF_SEED", 1))))
+	nviol, steps := 0, 0
+	for run := 0; run < n; run++ {
+		s := ctl.New()
+		cons := &consumer{cl: &clientStub{cfg: cfgStub{blockRebalanceOnPoll: true}, ctx: context.Background()}}
+		cons.pollWaitC = ctl.NewCond(&cons.pollWaitMu)
+		outstanding := map[string]bool{} // admitted, not yet released / allowed
+		inPoll := map[string]bool{}      // between admission and the poll's return
+		holding := map[string]bool{}
+		active := map[string]bool{} // rebalancers between the start of waitAndAddRebalance and the end of unaddRebalance
+		stop := false
+		var sched []string
+		for _, p := range c.Pollers {
+			s.Go(p, func() {
+				for k := 0; k < c.Rounds; k++ {
+					cons.waitAndAddPoller()
+					outstanding[p], inPoll[p] = true, true
+					s.Yield("added")
+					if rng.Intn(2) == 0 {
+						inPoll[p] = false
+						holding[p] = true
+						s.Yield("holding")
+					} else {
+						cons.unaddPoller()
+						inPoll[p] = false
+						if !holding[p] { // an earlier poll of this poller that returned records is still unallowed
+							delete(outstanding, p)
+						}
+					}
+				}
+			})
+		}
+		for _, r := range c.Rebalancers {
+			s.Go(r, func() {
+				for k := 0; k < c.Rounds; k++ {
+					active[r] = true
+					cons.waitAndAddRebalance()
+					s.Yield("in")
+					cons.unaddRebalance()
+					delete(active, r)
+				}
+			})
+		}
+		s.Go("app", func() {
+			for !stop {
+				s.Yield("app")
+				cons.allowRebalance()
+				for p := range holding {
+					delete(holding, p)
+					if !inPoll[p] {
+						delete(outstanding, p)
+					}
+				}
+			}
+		})
+		bad, what := "", ""
+		workers := append(append([]string{}, c.Pollers...), c.Rebalancers...)
+		appIdle := 0
+		for len(sched) < 3000 && bad == "" {
+			var run []string
+			alive := 0
+			for _, w := range workers {
+				t := s.Threads[w]
+				if !t.Done {
+					alive++
+					if !t.Parked {
+						run = append(run, w)
+					}
+				}
+			}
+			if alive == 0 {
+				break
+			}
+			// the application calls AllowRebalance only while none of its polls is in progress (anything else is the
+			// documented misuse, which the property excludes)
+			appOK := true
+			for _, v := range inPoll {
+				if v {
+					appOK = false
+				}
+			}
+			th := ""
+			switch {
+			case len(run) > 0 && (!appOK || rng.Intn(4) != 0):
+				th = run[rng.Intn(len(run))]
+				appIdle = 0
+			case appOK:
+				th = "app"
+				if len(run) == 0 {
+					appIdle++
+				}
+			}
+			if th == "" || appIdle > 12 {
+				var parked []string
+				for _, w := range workers {
+					if s.Threads[w].Parked {
+						parked = append(parked, w)
+					}
+				}
+				bad, what = "waits forever", fmt.Sprintf("threads %v wait on the gate and nothing will wake them (pollers counted %d, rebalances %d, polls outstanding %v)", parked, int(cons.pollWaitState&0xffffffff), int(cons.pollWaitState>>32), outstanding)
+				break
+			}
+			sched = append(sched, th)
+			err := s.Step(th)
+			for th == "app" && err == nil && s.Threads["app"].At != "app" && !s.Threads["app"].Done {
+				err = s.Step(th) // AllowRebalance is one call of the application: no poll of its own starts inside it
+			}
+			if err != nil {
+				bad, what = "infra", err.Error()
+				break
+			}
+			if len(s.Errors) > 0 {
+				bad, what = "infra", fmt.Sprint(s.Errors)
+				break
+			}
+			var in []string
+			for _, r := range c.Rebalancers {
+				if s.Threads[r].At == "in" {
+					in = append(in, r)
+				}
+			}
+			if len(in) > 0 && len(outstanding) > 0 {
+				bad, what = "revoke overlaps poll", fmt.Sprintf("rebalancer(s) %v are inside revoke while polls %v are outstanding", in, outstanding)
+			}
+			// no lost wake-up: whoever still waits on the gate although what it waits for is over has been woken
+			for _, r := range c.Rebalancers {
+				if s.Threads[r].Parked && len(outstanding) == 0 && bad == "" {
+					bad, what = "lost wakeup", fmt.Sprintf("rebalancer %s waits on the gate, no poll is outstanding and no wake-up is pending for it", r)
+				}
+			}
+			for _, p := range c.Pollers {
+				if s.Threads[p].Parked && len(active) == 0 && bad == "" {
+					bad, what = "lost wakeup", fmt.Sprintf("poller %s waits on the gate, no rebalance is in progress and no wake-up is pending for it", p)
+				}
+			}
+		}
+		steps += len(sched)
+		if bad == "" && len(sched) >= 3000 {
+			bad, what = "waits forever", "pollers and rebalancers have not finished their rounds after 3000 steps"
+		}
+		stop = true
+		s.Drain(50)
+		if bad != "" {
+			nviol++
+			if nviol <= 5 {
+				raw.Emit(map[string]any{"kind": "viol", "key": bad, "what": fmt.Sprintf("%s; schedule (thread taking each step) %v", what, sched), "schedule": sched, "case": -1, "step": len(sched)})
+			}
+		}
+	}
+	raw.Emit(map[string]any{"kind": "stat", "schedules": n, "steps": steps, "violations": nviol})
 }
